@@ -90,6 +90,8 @@ pub fn check(c: &Case, acc: &mut Acc) -> Check {
         faults: vec![],
         tail: vec![],
         segments: 0,
+        counting_hint: false,
+        unfused_errors: false,
     };
     let req = ReqSpec::get().with("range", &c.range.0);
     let hdr_bytes: usize = c.headers.iter().map(|(k, v)| k.len() + v.0.len() + 4).sum();
